@@ -129,9 +129,18 @@ pub fn run(cfg: &Cfg) {
                 // back for a request sent after the replier stopped
                 let mut m = Ok(());
                 let outs: Vec<&str> = l.split(' ').next().unwrap_or("").split(';').collect();
+                // (the replier stops at the first request its decoder or its handler rejects; until then every
+                // request is due a reply)
+                let mut alive = true;
                 for (q, o) in reqs.iter().zip(outs.iter()) {
-                    if *o == "none" { continue; }
                     let (qh, qp) = q.split_once('|').unwrap();
+                    let body = unhx(qp);
+                    if alive && (body == b"boom" || (t[1] == "string" && std::str::from_utf8(&body).is_err())) { alive = false; }
+                    if *o == "none" {
+                        if alive { m = Err(format!("C02/C04: request {q} to a listening replier was never answered (the request or its reply went astray)")); break; }
+                        continue;
+                    }
+                    if !alive { m = Err(format!("C04: request {q} was answered ({o}) although the replier had stopped")); break; }
                     let Some((oh, op)) = o.split_once('|') else { m = Err(format!("C04: the requestor received {o} instead of a reply")); break; };
                     let mut want = b"re:".to_vec(); want.extend(unhx(qp));
                     if unhx(op) != want { m = Err(format!("C04: request {q} was answered with payload {op}")); break; }
